@@ -326,7 +326,7 @@ mod verif_rtr_w {
         let (m4, m6) = (some_len(g, 32), some_len(g, 128));
         let mut kid2 = kid; kid2[g.pick(20) as usize] ^= 1 << g.pick(8);
         let key = |n: usize, salt: u8| RouterKeyInfo::new(Bytes::from((0..n).map(|i| kid[i % 20] ^ salt ^ (i as u8)).collect::<Vec<u8>>())).expect("key info fits");
-        let klen = [0usize, 1, 4, 91, 300][g.pick(5) as usize];
+        let klen = [0usize, 1, 4, 91, 300, 992, 993, 2000][g.pick(8) as usize];      // (around and beyond 1 KiB PDUs too)
         let plain = vec![
             origin(false, a4 as u128, l4, None, asn),
             origin(false, a4 as u128, l4, Some(32), asn),                              // the same with another max length
@@ -342,9 +342,10 @@ mod verif_rtr_w {
         ];
         let provs = |n: u32, base: u32| ProviderAsns::try_from_iter((0..n).map(|i| Asn::from_u32(base.wrapping_add(i)))).expect("a few providers fit");
         let long = 3 + g.pick(30) as u32;
+        let first = if g.pick(3) == 0 { 0 } else { 1 };        // an announced record may have an EMPTY provider list
         let aspa = (0..3u32).map(|c| {
             let cust = Asn::from_u32(asn.wrapping_add(c));
-            vec![Payload::aspa(cust, provs(1, p0)), Payload::aspa(cust, provs(2, p0)), Payload::aspa(cust, provs(long, p0.wrapping_sub(c)))]
+            vec![Payload::aspa(cust, provs(first, p0)), Payload::aspa(cust, provs(2, p0)), Payload::aspa(cust, provs(long, p0.wrapping_sub(c)))]
         }).collect();
         Pool { plain, aspa }
     }
